@@ -226,8 +226,8 @@ pub fn reference(cfg: &Cfg, hist: &[Op]) -> Ref {
     match cfg.kind {
         Kind::Sma | Kind::Wma | Kind::Sd | Kind::Mad | Kind::Bb | Kind::Min | Kind::Max => {
             let xs: Vec<f64> = match cfg.kind {
-                Kind::Min if bar_input => bars(hist).iter().map(|b| b.l).collect(),
-                Kind::Max if bar_input => bars(hist).iter().map(|b| b.h).collect(),
+                Kind::Min => bars(hist).iter().map(|b| b.l).collect(),
+                Kind::Max => bars(hist).iter().map(|b| b.h).collect(),
                 _ => closes(hist),
             };
             let w = tail(&xs, n);
@@ -294,11 +294,17 @@ pub fn reference(cfg: &Cfg, hist: &[Op]) -> Ref {
         }
         Kind::Kc => {
             let bs = bars(hist);
-            let tps: Vec<Dd> = if bar_input {
-                bs.iter().map(tp_dd).collect()
-            } else {
-                bs.iter().map(|b| Dd::new(b.c)).collect()
-            };
+            // per element: a scalar input is its own price, a bar contributes its typical price
+            // (so a stream mixing both kinds of input on one instance is defined too)
+            let _ = bar_input;
+            let tps: Vec<Dd> = hist
+                .iter()
+                .map(|op| match op {
+                    Op::S(x) => Dd::new(*x),
+                    Op::B(b) => tp_dd(b),
+                    Op::Reset => unreachable!(),
+                })
+                .collect();
             let avg = ema_last(n, &tps);
             let atr = ema_last(n, &tr_series(&bs));
             r.v = [
